@@ -13,8 +13,10 @@ import (
 
 // buffer: operation sequences against the REAL v2 buffer (in-package seam VerifBuffer), in a synctest bubble so
 // that "settled" (every caller returned or durably blocked in Cond.Wait) is well defined after each action.
-//   E<k>  Enqueue(op k, errorOnFull=false) from its own goroutine      F<k>  Enqueue(op k, errorOnFull=true)
-//   T S R top / skip / remove from the (single) loop goroutine          X     shutdown
+//
+//	E<k>  Enqueue(op k, errorOnFull=false) from its own goroutine      F<k>  Enqueue(op k, errorOnFull=true)
+//	T S R top / skip / remove from the (single) loop goroutine          X     shutdown
+//
 // Observed after each action: value returned (T/S/R), size(), calls that returned since the previous action.
 func init() { register("buffer", famBuffer) }
 
